@@ -101,6 +101,21 @@ def build(cfg):
     for t in T:
         s.density[t] = cfg['rho'][t]
         s.diameter[t] = cfg['diam'][t]
+    if cfg.get('assign') == 'group':
+        # the way the tutorials fill the tables: one object assigned to ALL pairs at once, then the pairs that
+        # differ are overridden one by one
+        import json
+        for table, maker in ((s.potential, make_potential), (s.closure, make_closure)):
+            name = 'pot' if table is s.potential else 'clo'
+            specs = [json.dumps(cfg[name]['%s-%s' % (a, b)]) for a, b in pairs(T)]
+            common = max(sorted(set(specs)), key=specs.count)
+            table[T, T] = maker(json.loads(common))
+            for a, b in pairs(T):
+                if json.dumps(cfg[name]['%s-%s' % (a, b)]) != common:
+                    table[a, b] = maker(cfg[name]['%s-%s' % (a, b)])
+        for a, b in pairs(T):
+            s.omega[a, b] = make_omega(cfg['omega']['%s-%s' % (a, b)], s.domain.k)
+        return s
     for a, b in pairs(T):
         key = '%s-%s' % (a, b)
         s.potential[a, b] = make_potential(cfg['pot'][key])
